@@ -1037,3 +1037,125 @@ def _v_text_equal(I, a):
     else:
         explore.assert_bool(I, 1, label + '.same_structure')
     return None
+
+# ------------------------------------------------------------------ OpenMP runtime: logical threads (DESIGN.md 3.3 / C12)
+# A parallel region is executed by T logical threads one after the other (a legal schedule of a region in which nothing follows a barrier);
+# every memory access inside the region is recorded with its thread and whether it happened inside an atomic operation or under a lock.
+# At the end of the region two accesses of different threads to the same byte, one of them a write, not both protected, are a data race:
+# if there is none, every interleaving and every assignment of the same work items computes the same state (Bernstein's conditions).
+def _omp_T(I): return int(I.ext.get('omp_threads', 8))
+def _race_scan(I, log):
+    RU, WU, RP, WP = 1, 2, 4, 8
+    acc = {}
+    for (ob, off, size, rw, tid, prot) in log:
+        if tid == 0: continue
+        bit = (WP if prot else WU) if rw == 'w' else (RP if prot else RU)
+        for b in range(off, off + size):
+            d = acc.get((ob, b))
+            if d is None: acc[(ob, b)] = {tid: bit}
+            else: d[tid] = d.get(tid, 0) | bit
+    races = []
+    for (ob, b), d in acc.items():
+        if len(d) < 2: continue
+        ts = list(d.items()); hit = False
+        for i in range(len(ts)):
+            for j in range(i + 1, len(ts)):
+                (t1, f1), (t2, f2) = ts[i], ts[j]
+                # some access x of t1 and y of t2, one of them a write, not both protected
+                if (f1 & WU) or (f2 & WU) or ((f1 & WP) and (f2 & RU)) or ((f2 & WP) and (f1 & RU)):
+                    races.append((ob, b, t1, t2)); hit = True; break
+            if hit: break
+        if len(races) > 20: break
+    return races
+@ext('__kmpc_fork_call')
+def _kmpc_fork(I, a):
+    # void __kmpc_fork_call(ident_t *loc, kmp_int32 argc, kmpc_micro microtask, ...)
+    fn = a[2]
+    if not (isinstance(fn, tuple) and fn[0] == 'fn'): raise Unsupported('fork_call of a non-function')
+    if I.ext.get('omp_in_region'): raise Unsupported('nested parallel region')
+    T = _omp_T(I); I.ext['omp_in_region'] = True; I.ext['omp_single_taken'] = set()
+    lg0, log0 = I.logging, I.log
+    I.logging = True; I.log = []
+    order = list(range(T))
+    if I.ext.get('omp_reverse'): order.reverse()
+    try:
+        for t in order:
+            I.tid = t + 1
+            g = I.alloc(4, 'omp.gtid', 'stack'); b = I.alloc(4, 'omp.btid', 'stack')
+            lgx = I.logging; I.logging = False; I.store(g, t + 1, 4); I.store(b, t, 4); I.logging = lgx
+            I.call(fn[1], [g, b] + list(a[3:]))
+    finally:
+        I.tid = 0; I.ext['omp_in_region'] = False
+    region = I.log; I.logging, I.log = lg0, log0
+    I.ext['omp_regions'] = I.ext.get('omp_regions', 0) + 1
+    I.ext['omp_accesses'] = I.ext.get('omp_accesses', 0) + len(region)
+    races = _race_scan(I, region)
+    if races:
+        ob, b, t1, t2 = races[0]
+        o = I.objs.get(ob)
+        msg = 'logical threads %d and %d access byte %d of %s without synchronisation (one of them writes); %d conflicting bytes found' % (t1, t2, b, o.name if o else ob, len(races))
+        I.ext.setdefault('races', []).append(msg); I.notes.append('data race: ' + msg)
+        if I.inputs is None:
+            # recorded as a failed obligation; the path goes on so that the effect on the results is also seen
+            from . import explore
+            explore.assert_bool(I, 0, 'race:no_conflicting_access_in_parallel_region')
+    return None
+@ext('__kmpc_for_static_init_4', '__kmpc_for_static_init_4u')
+def _kmpc_static_init(I, a, name=None):
+    # (loc, gtid, schedtype, plastiter, plower, pupper, pstride, incr, chunk)
+    wide = 8 if (I.ext.get('omp_wide')) else 4
+    sched = a[2]; plast, plo, pup, pst = a[3], a[4], a[5], a[6]; incr = sext(a[7], 32) if wide == 4 else sext(a[7], 64)
+    if incr != 1: raise Unsupported('omp for with increment %d' % incr)
+    if sched not in (34, 33): raise Unsupported('omp schedule kind %d' % sched)
+    lo = sext(I.load(plo, wide, 'i%d' % (wide * 8)), wide * 8); up = sext(I.load(pup, wide, 'i%d' % (wide * 8)), wide * 8)
+    T = _omp_T(I); t = I.tid - 1; n = up - lo + 1
+    if n <= 0:
+        I.store(plast, 0, 4); return None
+    small, extra = divmod(n, T)
+    size = small + (1 if t < extra else 0)
+    mylo = lo + t * small + min(t, extra); myup = mylo + size - 1
+    I.store(plo, mask(mylo, wide * 8), wide); I.store(pup, mask(myup, wide * 8), wide)
+    I.store(pst, mask(n, wide * 8), wide)
+    I.store(plast, 1 if (size > 0 and myup == up) else 0, 4)
+    return None
+@ext('__kmpc_for_static_fini', '__kmpc_barrier', '__kmpc_push_num_threads', '__kmpc_end_single', 'omp_init_lock', 'omp_destroy_lock', '__kmpc_flush')
+def _kmpc_nop(I, a): return None if True else 0
+@ext('__kmpc_global_thread_num')
+def _kmpc_gtid(I, a): return I.tid
+@ext('omp_get_thread_num')
+def _omp_tn(I, a): return max(0, I.tid - 1)
+@ext('omp_get_max_threads', 'omp_get_num_threads', 'omp_get_num_procs')
+def _omp_mt(I, a): return _omp_T(I)
+@ext('__kmpc_single')
+def _kmpc_single(I, a):
+    # the single construct is executed by the logical thread selected by ext['omp_single_thread'] (default: the first to arrive)
+    key = I.addr(a[0]) if isinstance(a[0], tuple) else 0
+    want = I.ext.get('omp_single_thread')
+    taken = I.ext.setdefault('omp_single_taken', set())
+    if key in taken: return 0
+    if want is None or want == I.tid - 1 or I.tid == 0:
+        taken.add(key); return 1
+    return 0
+@ext('omp_set_lock', 'omp_set_nest_lock')
+def _omp_set_lock(I, a):
+    I.locks.add(I.addr(a[0])); return None
+@ext('omp_unset_lock', 'omp_unset_nest_lock')
+def _omp_unset_lock(I, a):
+    I.locks.discard(I.addr(a[0])); return None
+@ext('omp_test_lock')
+def _omp_test_lock(I, a):
+    I.locks.add(I.addr(a[0])); return 1
+@ext('__kmpc_critical')
+def _kmpc_crit(I, a):
+    I.locks.add(('crit', I.addr(a[2]))); return None
+@ext('__kmpc_end_critical')
+def _kmpc_endcrit(I, a):
+    I.locks.discard(('crit', I.addr(a[2]))); return None
+@ext('__kmpc_reduce', '__kmpc_reduce_nowait', '__kmpc_end_reduce', '__kmpc_end_reduce_nowait')
+def _kmpc_reduce(I, a): raise Unsupported('OpenMP reduction (OPES kernel sums are outside the claim)')
+@ext('verif_omp_config')
+def _v_omp_config(I, a):
+    # void verif_omp_config(int threads, int single_thread, int reverse): logical thread count, which thread executes 'single' (-1: first), order of execution
+    I.ext['omp_threads'] = a[0]; st = sext(a[1], 32); I.ext['omp_single_thread'] = None if st < 0 else st; I.ext['omp_reverse'] = bool(a[2]); return None
+@ext('verif_omp_regions')
+def _v_omp_regions(I, a): return I.ext.get('omp_regions', 0)
